@@ -94,7 +94,9 @@ type c19Entry struct {
 	kind string
 }
 
-var hostileNames = []string{"a b", " lead", "trail ", "é", "日本.pb", ".hidden", "-dash", "--", "10", "9", "09", "A", "a", "Z", "~tilde", "x\ty", "q'uote", "semi;colon", strings.Repeat("n", 255), "file.pb", "FILE.pb", "0", "00", "!"}
+// The last names are not valid UTF-8 (legal file names on Linux): Latin-1 bytes, a lone continuation byte, a truncated sequence.
+var hostileNames = []string{"a b", " lead", "trail ", "é", "日本.pb", ".hidden", "-dash", "--", "10", "9", "09", "A", "a", "Z", "~tilde", "x\ty", "q'uote", "semi;colon", strings.Repeat("n", 255), "file.pb", "FILE.pb", "0", "00", "!",
+	"caf\xe9.pb", "\xff", "\x80abc", "feed-\xc3.pb", "back\\slash", "new\nline", "star*", "..."}
 
 // c19Materialise creates the directory; returns the entries in creation order and the names to delete after listing.
 func c19Materialise(r *core.Rand, dir string, entries []c19Entry) (deleteLater []string, err error) {
